@@ -523,7 +523,7 @@ func (e *Engine) copyAll(bc *BCase) error {
 	}
 	hasExternalGroup := map[atree.SlabID]bool{}
 	for _, si := range w.Order {
-		if si.Kind == kCollGroup && si.Parent != nil {
+		if si.Kind == kCollGroup && si.Parent != nil && !si.NestedGroup {
 			hasExternalGroup[si.Parent.ID] = true
 		}
 	}
@@ -687,6 +687,9 @@ func init() {
 			case "copy":
 				k := rapid.SampledFrom([]string{"arr", "map"}).Draw(t, "ck")
 				bc.Root = RootSpec{K: k, Addr: 1, TI: 2}
+				if k == "map" && rapid.IntRange(0, 9).Draw(t, "copydig") < 4 {
+					bc.Root.Dig = genDigSpec(t) // sources with inline / external collision groups
+				}
 			}
 			if bc.Kind == "mapbatch" || bc.Kind == "copy" {
 				n := rapid.IntRange(0, 25).Draw(t, "nsrc")
